@@ -85,6 +85,9 @@ def object_variants(mm: MetaModel, t: Dict) -> List[Any]:
     return out
 
 
+ADVERSARIAL_STRINGS = ["", "42", "10", "0", "-1", "1.5", "true", "null", "[1, 2]", "{}", "kind", "a kind of value", "language", "location", "uri", "\u0663\u0664", "ab"]
+
+
 def site_inputs(mm: MetaModel, tau: Dict, cap: int = 400) -> List[Any]:
     out: List[Any] = []
     alts = alternatives(mm, tau)
@@ -126,6 +129,12 @@ def site_inputs(mm: MetaModel, tau: Dict, cap: int = 400) -> List[Any]:
             seen.add(k)
             uniq.append(j)
     uniq = uniq[:cap]
+    # where the union admits a plain string: strings that LOOK like its other alternatives (digits, JSON spellings, key names) and the
+    # empty string - a hook that unpacks, indexes or searches its input must not mistake them
+    if any(mm.resolve_alias(a)["kind"] == "base" and mm.resolve_alias(a)["name"] in ("string", "DocumentUri", "URI", "RegExp") for a in alts) or any(
+        mm.resolve_alias(a)["kind"] == "reference" and mm.resolve_alias(a)["name"] in mm.enumerations and mm.is_open_enum(mm.resolve_alias(a)["name"]) and isinstance(mm.enumerations[mm.resolve_alias(a)["name"]]["values"][0]["value"], str) for a in alts
+    ):
+        uniq += [s_ for s_ in ADVERSARIAL_STRINGS if s_ not in uniq]
     from lib.sweeps import reverse_keys
 
     # the same objects with their members in the opposite order (a discriminator must not depend on the order the sender chose)
